@@ -132,7 +132,7 @@ def handleSeg (toks : List String) : Option String :=
     pure (showSegs (shift d l))
   | ["sum", ls] => do
     let ls ← parseSegLists? ls
-    pure (showSegs (sum ls))
+    pure (showSegs (sumGo ls))
   | ["mactive", t, m] => do
     let t ← parseInt? t
     let m ← parseMode? m
